@@ -266,6 +266,9 @@ ResultOpTree(r) ==
 Response(r, emptyctl, expl) ==
   MsgTree(r.id, ResultOpTree(r), IF r.ctrls # <<>> \/ emptyctl THEN <<CtlsTree(r.ctrls, expl)>> ELSE <<>>)
 
+(* SearchResultReference ::= [APPLICATION 19] SEQUENCE SIZE (1..MAX) OF uri URI  (RFC 4511 4.5.3) *)
+RefMsgTree(id, uris) == MsgTree(id, Cons(1, 19, [i \in 1..Len(uris) |-> TOct(uris[i])]), <<>>)
+
 (* reader, independent of Response *)
 DecodeResponse(bytes) ==
   LET d == DecOne(bytes) IN
@@ -324,4 +327,7 @@ ResultOf(d) ==
         exop |-> [hasname |-> d.hasname, name |-> d.name, hasval |-> d.hasvalue, val |-> d.value]]
   ELSE [rc |-> d.rc, matched |-> d.matched, text |-> d.text, refs |-> d.refs, ctrls |-> d.ctrls,
         success |-> Success(d.rc), non_error |-> NonError(d.rc)]
+(* Ldap::search() / LdapConn::search(): the URIs of the SearchResultReference messages that preceded the final result are
+   appended to the result's own referral list (which the server encoded in the SearchResultDone and which must survive) *)
+SearchResultOf(d, refuris) == [ResultOf(d) EXCEPT !.refs = @ \o refuris]
 =============================================================================
